@@ -151,3 +151,29 @@ def build_runner(pid, timeout=900):
         return False, out + out2
     open(stamp, 'w').write(dig)
     return True, out + out2
+
+def crosscheck_in_coq(runner, sample, timeout=900):
+    """Evaluate Glue/<runner>_glue.run inside Coq (vm_compute) on calls the extracted OCaml runner answered and
+    require the same results: validates extraction + ocaml/driver.ml.in. Returns (ok, n, log)."""
+    from .model import coq_val
+    if not sample:
+        return True, 0, 'no sample'
+    os.makedirs(os.path.join(COQ, 'Xcheck'), exist_ok=True)
+    rel = os.path.join('Xcheck', 'X_%s_%d.v' % (runner, os.getpid()))
+    lines = ['From NC Require Import Model.Base Glue.%s_glue.' % runner, 'Open Scope N_scope.']
+    for i, (c, o) in enumerate(sample):
+        lines.append('Example xc_%d : run %s = %s.\nProof. vm_compute. reflexivity. Qed.' % (i, coq_val(c), coq_val(o)))
+    open(os.path.join(COQ, rel), 'w').write('\n'.join(lines) + '\n')
+    rc, out, dt = sh(['coqc', '-Q', '.', 'NC', rel], COQ, timeout)
+    for ext in ('.v', '.vo', '.glob', '.vok', '.vos'):
+        try: os.remove(os.path.join(COQ, rel[:-2] + ext))
+        except OSError: pass
+    try: os.remove(os.path.join(COQ, 'Xcheck', '.' + os.path.basename(rel)[:-2] + '.aux'))
+    except OSError: pass
+    return rc == 0, len(sample), out[-1500:]
+
+def coqchk(roots, timeout=1500):
+    """Independent re-check of the compiled Props files and everything they depend on; prints the axioms."""
+    mods = ['NC.' + r[:-2].replace('/', '.') for r in roots]
+    rc, out, dt = sh(['coqchk', '-silent', '-o', '-Q', '.', 'NC'] + mods, COQ, timeout)
+    return rc == 0, out[-3000:]
